@@ -137,7 +137,15 @@ func CreateNodeDataDir(fs vfs.FS, dir string) error {
 	if err := fs.MkdirAll(dir, 0o755); err != nil {
 		return err
 	}
-	return syncDir(fs, filepath.Dir(dir))
+	parent := filepath.Dir(dir)
+	if err := syncDir(fs, parent); err != nil {
+		return err
+	}
+	// MkdirAll may have created the parent (hostname) level as well, make its entry durable too.
+	if gp := filepath.Dir(parent); gp != parent && gp != "." {
+		return syncDir(fs, gp)
+	}
+	return nil
 }
 
 // CleanupNodeDataDir cleans up old data dir (should be called after successful switch).
